@@ -128,7 +128,7 @@ func runC20(c *Ctx) {
 	r := newRand(c.Seed, 20)
 	n := 40
 	if c.Thorough() {
-		n = 600
+		n = 250
 	}
 	skips := []*structpb.Value{nil, nil, structpb.NewBoolValue(true), structpb.NewBoolValue(false), structpb.NewStringValue("true"), structpb.NewStringValue("false"),
 		structpb.NewStringValue("1"), structpb.NewStringValue("T"), structpb.NewStringValue("yes"), structpb.NewStringValue(""), structpb.NewNullValue(), structpb.NewNumberValue(1)}
